@@ -114,6 +114,40 @@ def _key_dispatch(body):
     return None
 
 
+def _writer_conversion(branch: ast.AST, saved: str):
+    """How the mapping saved by the chunk writer (`**saved`) is derived from the sample dict, in either spelling:
+         for k, v in D.items(): if k != K and isinstance(v, torch.Tensor): D[k] = v.numpy()          (saved is D)
+         saved = {k: (v.numpy() if k != K and isinstance(v, torch.Tensor) else v) for k, v in D.items()}
+       -> (D, K) or None."""
+    def excluded(test, kv, vv):
+        if isinstance(test, ast.BoolOp) and isinstance(test.op, ast.And) and len(test.values) == 2:
+            ks = [astq.const_value(v.comparators[0]) for v in test.values if isinstance(v, ast.Compare) and len(v.ops) == 1 and isinstance(v.ops[0], ast.NotEq) and norm(v.left) == kv]
+            ts = [v for v in test.values if isinstance(v, ast.Call) and norm(v.func) == "isinstance" and len(v.args) == 2 and norm(v.args[0]) == vv and norm(v.args[1]).endswith("Tensor")]
+            if len(ks) == 1 and len(ts) == 1 and isinstance(ks[0], str):
+                return ks[0]
+        return None
+
+    for n in ast.walk(branch):
+        if isinstance(n, ast.For) and isinstance(n.iter, ast.Call) and isinstance(n.iter.func, ast.Attribute) and n.iter.func.attr == "items" and norm(n.iter.func.value) == saved \
+                and isinstance(n.target, ast.Tuple) and len(n.target.elts) == 2:
+            kv, vv = [norm(e) for e in n.target.elts]
+            g = [x for x in n.body if isinstance(x, ast.If)]
+            if len(g) == 1 and len(n.body) == 1 and not g[0].orelse and len(g[0].body) == 1 and isinstance(g[0].body[0], ast.Assign):
+                st = g[0].body[0]
+                K = excluded(g[0].test, kv, vv)
+                if K is not None and norm(st.targets[0]) == f"{saved}[{kv}]" and norm(st.value) == f"{vv}.numpy()":
+                    return saved, K
+        if isinstance(n, ast.Assign) and len(n.targets) == 1 and norm(n.targets[0]) == saved and isinstance(n.value, ast.DictComp) and len(n.value.generators) == 1:
+            c, g = n.value, n.value.generators[0]
+            if not g.ifs and isinstance(g.iter, ast.Call) and isinstance(g.iter.func, ast.Attribute) and g.iter.func.attr == "items" and isinstance(g.target, ast.Tuple) and len(g.target.elts) == 2:
+                kv, vv = [norm(e) for e in g.target.elts]
+                if norm(c.key) == kv and isinstance(c.value, ast.IfExp) and norm(c.value.body) == f"{vv}.numpy()" and norm(c.value.orelse) == vv:
+                    K = excluded(c.value.test, kv, vv)
+                    if K is not None:
+                        return norm(g.iter.func.value), K
+    return None
+
+
 def check_npz(prog: Program, res: Result) -> None:
     R = "C18-npz"
     for cname, key in (("BaseDataset", "image"), ("CenteredInstanceDataset", "instance_image"), ("CentroidDataset", "image")):
@@ -124,25 +158,21 @@ def check_npz(prog: Program, res: Result) -> None:
         if len(branch) != 1:
             continue
         b = branch[0]
-        pil = [s for s in b.body if isinstance(s, ast.Assign) and norm(s.targets[0]) == f"sample['{key}']"]
-        ok = len(pil) == 1 and norm(pil[0].value) == f"self.transform_to_pil(sample['{key}'].squeeze(dim=0))"
+        sv = [c for c in ast.walk(b) if isinstance(c, ast.Call) and norm(c.func) in ("np.savez_compressed", "numpy.savez_compressed", "np.savez")]
+        stars = [k.value for c in sv for k in c.keywords if k.arg is None]
+        saved = stars[0].id if len(sv) == 1 and len(stars) == 1 and isinstance(stars[0], ast.Name) else None
+        conv = _writer_conversion(b, saved) if saved is not None else None     # (source dict, excluded key)
+        src = conv[0] if conv else None
+        pil = [s for s in b.body if isinstance(s, ast.Assign) and src is not None and norm(s.targets[0]) == f"{src}['{key}']"]
+        ok = len(pil) == 1 and norm(pil[0].value) in (f"self.transform_to_pil({src}['{key}'].squeeze(dim=0))", f"self.transform_to_pil({src}['{key}'].squeeze(0))")
         res.ob(R, ok, fi.qualname, f"writer: {key} -> PIL of the squeezed image", f"the writer stores sample['{key}'] as `{short(pil[0].value, 60) if pil else '?'}`", fi.where)
-        loops = [n for n in b.body if isinstance(n, ast.For) and norm(n.iter) == "sample.items()"]
-        ok = len(loops) == 1
-        excl = None
-        if ok:
-            g = [n for n in loops[0].body if isinstance(n, ast.If)]
-            ok = len(g) == 1 and isinstance(g[0].test, ast.BoolOp) and any(isinstance(v, ast.Compare) and isinstance(v.ops[0], ast.NotEq) and isinstance(v.comparators[0], ast.Constant)
-                                                                            for v in g[0].test.values)
-            if ok:
-                excl = [v.comparators[0].value for v in g[0].test.values if isinstance(v, ast.Compare) and isinstance(v.ops[0], ast.NotEq)][0]
-                st = g[0].body[0] if g[0].body else None
-                ok = excl == key and isinstance(st, ast.Assign) and norm(st.targets[0]) == "sample[k]" and norm(st.value) == "v.numpy()"
-        res.ob(R, ok, fi.qualname, f"writer: every other tensor -> numpy, '{key}' excluded", f"the writer's conversion loop excludes '{excl}' (expected '{key}') or does not store v.numpy()", fi.where)
-        sv = [c for c in ast.walk(b) if isinstance(c, ast.Call) and norm(c.func) == "np.savez_compressed"]
-        ok = len(sv) == 1 and any(k.arg is None and norm(k.value) == "sample" for k in sv[0].keywords) and norm(sv[0].args[0]) == "f_name"
-        fn = [s for s in b.body if isinstance(s, ast.Assign) and norm(s.targets[0]) == "f_name"]
-        ok = ok and len(fn) == 1 and norm(fn[0].value) == "f'{self.np_chunks_path}/sample_{idx}.npz'"
+        excl = conv[1] if conv else None
+        res.ob(R, conv is not None and excl == key, fi.qualname, f"writer: every other tensor -> numpy, '{key}' excluded",
+               f"the writer's conversion loop excludes '{excl}' (expected '{key}') or does not store v.numpy()", fi.where)
+        loops_ = [n for n in walk_function(fi.node) if isinstance(n, ast.For) and norm(n.iter).startswith("enumerate(") and astq.in_body_of(b, n)]
+        lv = norm(loops_[-1].target.elts[0]) if loops_ and isinstance(loops_[-1].target, ast.Tuple) else None
+        path = astq.expand_at(fi.node, sv[0].args[0], astq_enclosing18(sv[0])) if len(sv) == 1 and sv[0].args else None
+        ok = conv is not None and lv is not None and path is not None and norm(path) == "f'{self.np_chunks_path}/sample_{" + lv + "}.npz'"
         res.ob(R, ok, fi.qualname, "writer: np.savez_compressed(<path>/sample_<idx>.npz, **sample)", "the sample is not saved whole under <np_chunks_path>/sample_<idx>.npz", fi.where)
     for cname, key in (("BottomUpDataset", "image"), ("CenteredInstanceDataset", "instance_image"), ("CentroidDataset", "image"), ("SingleInstanceDataset", "image")):
         gi = prog.cls(f"{CD}:{cname}").methods.get("__getitem__")
@@ -364,12 +394,13 @@ def check_memo(prog: Program, res: Result) -> None:
     wrongly keyed memo is a disagreement between the frameworks."""
     R = "C18-memo"
     n = 0
+    live = {f.qualname for f in prog.all_functions()}
     for ci in prog.classes.values():
         if ci.module.name != "sleap_nn.data.custom_datasets":
             continue
         for fi in ci.methods.values():
             uses = [x for x in walk_function(fi.node) if isinstance(x, ast.Attribute) and norm(x) == "self.cache_lf"]
-            if not uses or fi.name == "__init__":
+            if not uses or fi.name == "__init__" or fi.qualname not in live:   # an absorbed helper is judged inside its caller
                 continue
             res.touch(fi)
             fetch = [st for st in walk_function(fi.node) if isinstance(st, ast.Assign) and isinstance(st.value, ast.Subscript) and norm(st.value.value) == "self.labels"]
